@@ -9,6 +9,7 @@ from common import Scn, hx, Opt, CFGF
 import gen
 
 VARIANT = 'asan'
+COMPARE_LINES = True      # line numbers in diagnostics are part of this property
 RULE = ('all event sequences up to a length bound over 16 prior events, then 7 probes; baseline = probes alone in a fresh process; '
         'non-trivial = the history contains at least one aborted parse; distinct by history')
 F = CFGF
